@@ -343,7 +343,7 @@ func check(args []string) int {
 			h.Func, res.Paths, res.Completed, res.Pruned, res.Obligations, res.Discharged, res.Solver.Sat, res.Solver.Unsat, res.Solver.Unknown,
 			res.Solver.Time.Seconds(), res.WallSeconds)
 		for reason, n := range res.Unsupported {
-			inconclusive = append(inconclusive, fmt.Sprintf("%s: %d path(s) inconclusive: %s", h.Func, n, reason))
+			inconclusive = append(inconclusive, fmt.Sprintf("%s: %d path(s) inconclusive: %s (first at decisions %v)", h.Func, n, reason, res.UnsupportedAt[reason]))
 		}
 		if res.Unknowns > 0 {
 			inconclusive = append(inconclusive, fmt.Sprintf("%s: %d solver answers were unknown", h.Func, res.Unknowns))
